@@ -107,8 +107,8 @@ def glue_tasks():
         def run(fn, args, modular):
             del log[:]
             it = I.Interp(modular=modular)
-            # any other repository function reached from the glue is an unexpected callee: it becomes an uninterpreted term, so the result term differs
-            it.auto_stub = lambda f, a, k: Tok("unexpected_callee:" + f.__name__, *a, **k)
+            # any other repository function reached from the glue (e.g. an extracted helper) is interpreted in place; if that leaves the modelled subset the
+            # obligation is UNDECIDED (structure drift), never refuted for that reason
             saved = sc.single_qubit_gate_canceller
             sc.single_qubit_gate_canceller = canceller
             try:
@@ -138,7 +138,7 @@ def glue_tasks():
             firstlk = next((i for i, t in enumerate(log) if t.head in ("table", "classify", "find_layer")), None)
             ok_gate = bool(gates) and same(log[gates[0]], Tok("gate", nq, conn)) and (firstlk is None or gates[0] < firstlk)
             recs.append(_rec("glue.modphase.gate_first", ok_gate, f"call log {log[:4]}"))
-        except (S.Unsupported, NameError, AttributeError, TypeError) as e:
+        except (S.Unsupported, NameError, AttributeError, TypeError, ValueError, KeyError, IndexError) as e:
             recs.append(_rec("glue.modphase.result_term", False, f"structure drift: {type(e).__name__}: {e}", status="unknown"))
         # ---- callers of modphase
         mod = dict(base)
@@ -158,7 +158,7 @@ def glue_tasks():
                 if needs_gate:
                     okg = bool(log) and log[0].head == "gate" and same(log[0], Tok("gate", Tok("attr:num_qubits", st), conn))
                     recs.append(_rec(f"glue.{nm}.gate_first", okg, f"call log {log[:3]}"))
-            except (S.Unsupported, NameError, AttributeError, TypeError) as e:
+            except (S.Unsupported, NameError, AttributeError, TypeError, ValueError, KeyError, IndexError) as e:
                 recs.append(_rec(f"glue.{nm}.result_term", False, f"structure drift: {type(e).__name__}: {e}", status="unknown"))
         return recs, {"t": round(time.time() - t0, 3)}
     return [task]
@@ -176,13 +176,12 @@ def tomography_glue_tasks():
             try:
                 it = I.Interp(modular={T._compute_density_matrix_from_pauli_expectation_values: lambda interp, a, k, g: Tok("linear_inversion", *a, **k),
                                        cls.expectation_values: lambda interp, a, k, g: Tok("expectation_values", *a, **k)})
-                it.auto_stub = lambda f, a, k: Tok("unexpected_callee:" + f.__name__, *a, **k)
                 selfobj = Tok("SELF")
                 flag = Tok("FLAG")
                 res = it.run(cls.density_matrix, [selfobj], {"full_hilbert_space": flag})
                 want = Tok("linear_inversion", Tok("call", Tok("attr:expectation_values", selfobj), full_hilbert_space=flag))      # self.expectation_values(full_hilbert_space=flag)
                 recs.append(_rec(name, same(res, want) and not it.raised, f"got {res}, want {want}"))
-            except (S.Unsupported, NameError, AttributeError, TypeError) as e:
+            except (S.Unsupported, NameError, AttributeError, TypeError, ValueError, KeyError, IndexError) as e:
                 recs.append(_rec(name, False, f"structure drift: {type(e).__name__}: {e}", status="unknown"))
         return recs, {"t": round(time.time() - t0, 3)}
     return [task]
